@@ -15,8 +15,10 @@ EXTENDS SCProps, Json
 CONSTANTS Engine,      \* "sync" | "async"
           GuardVals,   \* subset of {"T","F","R"} each guard may take per step
           WithCan,     \* TRUE: also explore can(e)
+          FaultPairs,  \* TRUE: fault sets of two actions as well
           PropSet,     \* ids of the Prop predicates to evaluate on every edge
           WithBatch,   \* TRUE: also explore send_events([e1, e2]) for every pair of relevant events
+          WithFaults,  \* TRUE: also explore every step with one of its user actions raising
           WithBurst,   \* TRUE: also explore send_events of maxIterations+2 copies of each relevant event
           MaxStates    \* quick tier: stop expanding once this many distinct states were found
 
@@ -24,7 +26,7 @@ VARIABLES status, config, hist, ctx, output, out, lastStep, errv, dirty
 vars == <<mi, status, config, hist, ctx, output, out, lastStep, errv, dirty>>
 
 Pack == [config |-> config, hist |-> hist, status |-> status, ctx |-> ctx, queue |-> <<>>,
-         out |-> <<>>, err |-> NoErr, rd |-> 0, output |-> output, gv |-> <<>>]
+         out |-> <<>>, err |-> NoErr, rd |-> 0, output |-> output, gv |-> <<>>, faults |-> {}, halt |-> FALSE]
 
 HistOwnersOf(m) == {s \in Machines[m].states :
                       \E i \in 1..Len(Machines[m].children[s]) :
@@ -91,7 +93,25 @@ BatchN == /\ WithBurst /\ Engine # "pure" /\ Usable /\ status = "running"
                 LET evs == [i \in 1..(D.maxIter + 2) |-> e]
                 IN Apply(BatchStep(Pack, evs, gv, Engine), [op |-> "batch", ev |-> e, evs |-> evs, gv |-> gv])
 
-Next == Start \/ Send \/ Can \/ Batch \/ BatchN
+\* fault injection: the step is repeated with ONE of the user actions its fault-free run executes
+\* made to raise (single faults; pairs are a thorough-tier option through FaultPairs)
+ActNamesSet(o) == {o[i].a : i \in {x \in 1..Len(o) : o[x].k = "act"}}
+FaultSets(clean) == LET A == ActNamesSet(clean.out)
+                    IN {{f} : f \in A} \cup (IF FaultPairs THEN {{f, g} : f \in A, g \in A} ELSE {})
+FaultySend == /\ WithFaults /\ Usable /\ status = "running"
+              /\ \E ev \in Relevant : \E gv \in GVs :
+                    LET clean == SendStep(PackSend, ev, gv, Engine)
+                    IN \E F \in FaultSets(clean) :
+                          Apply(SendStep([PackSend EXCEPT !.faults = F], ev, gv, Engine),
+                                [op |-> "send", ev |-> ev, gv |-> gv, faults |-> F])
+FaultyStart == /\ WithFaults /\ Usable /\ status = "uninitialized"
+               /\ \E gv \in GVs :
+                     LET clean == StartStep(Pack, gv, Engine)
+                     IN \E F \in FaultSets(clean) :
+                           Apply(StartStep([Pack EXCEPT !.faults = F], gv, Engine),
+                                 [op |-> "start", ev |-> "", gv |-> gv, faults |-> F])
+
+Next == Start \/ Send \/ Can \/ Batch \/ BatchN \/ FaultySend \/ FaultyStart
 Spec == Init /\ [][Next]_vars
 
 \* breadth-first prefix of the state graph when the bound bites (evidence: exhaustive = false)
@@ -137,6 +157,14 @@ C05Spec(step) ==
                \cup Tag(step.op = "batch" \/ SameState(s, p), "sync_pure_state")
                \cup Tag(step.op = "batch" \/ AxNames(s.out) = RecNames(p.out), "sync_pure_actions")
 
+FaultsOf(step) == IF "faults" \in DOMAIN step THEN step.faults ELSE {}
+C07Spec(step, post, o) ==
+  C07Abort(PreS, step, post, o)
+  \cup (IF FaultsOf(step) = {} THEN {}
+       ELSE LET clean == StepOn(Engine, [op |-> step.op, ev |-> step.ev, gv |-> step.gv])
+            IN C07Pair([config |-> clean.config, status |-> clean.status, hist |-> clean.hist, err |-> clean.err],
+                       clean.out, post, o, FaultsOf(step)))
+
 On(p, v) == IF p \in PropSet THEN v ELSE {}
 Props == [C01 |-> On("C01", C01(PreS, lastStep', PostS, out')),
           C02 |-> On("C02", C02(PreS, lastStep', PostS, out')),
@@ -146,7 +174,8 @@ Props == [C01 |-> On("C01", C01(PreS, lastStep', PostS, out')),
           C05 |-> On("C05", C05Spec(lastStep')),
           C06 |-> On("C06", C06(PreS, lastStep', PostS, out')),
           C20 |-> On("C20", C20(PreS, lastStep', PostS, out')),
-          C13 |-> On("C13", C13(PreS, lastStep', PostS, out'))]
+          C13 |-> On("C13", C13(PreS, lastStep', PostS, out')),
+          C07 |-> On("C07", C07Spec(lastStep', PostS, out'))]
 
 Emit == PrintT(ToJson([mi |-> mi, from |-> PreS, step |-> lastStep', to |-> PostS, dirty |-> dirty',
                        out |-> out', prop |-> Props]))
